@@ -28,6 +28,9 @@ THEOREMS = [
     "RedunModel.C31.record_twice",
     "RedunModel.C31.record_again_same_answer",
     "RedunModel.C31.rerecord_heals",
+    "RedunModel.C31.put_existing_is_noop",
+    "RedunModel.C31.rerecord_store_unchanged",
+    "RedunModel.C31.watch_reads_value",
     "RedunModel.C31.get_never_fails_with_store",
     "RedunModel.C31.zero_length_remark",
 ]
@@ -46,6 +49,11 @@ ASSUMPTIONS = [
     "store may be attached to a backend that had none, never detached (a placeholder row without a configured store "
     "raises AssertionError: mirrored by the model, not generated)",
     "bytes go missing only by deleting the whole store file / FileCache file of one value (no partial or altered files)",
+    "the store is a local (non-atomic) directory. A re-record may be staged with a window inside the store's write of that "
+    "object (harness wrapper around LocalFileSystem._open for that one path): the other backend reads the value, or the "
+    "write fails with ENOSPC, between open-for-writing and close. Staged only when the object exists; demanded only for a "
+    "value recorded before whose bytes were never deleted: the read gives the value, and after the fault the value still "
+    "reads back (first writes and healing writes of a missing object are not atomic in redun and are not staged)",
     "two backends (own engine, session and ValueStore object each) share one sqlite file and one store directory and take "
     "turns, never concurrently (the IntegrityError branch of record_value is not exercised); the model has one shared "
     "state and no per-backend state; a read may happen while the store directory is moved away (absent then; the state "
@@ -134,8 +142,13 @@ def gen_case(rng, nops, datalen):
             mn = rng.choice([0, 0, n + 33 - 1, n + 33, n + 33 + 1, 100, 10 ** 9])
             mx = rng.choice([n - 1, n, n + 1, 10, 10 ** 9, 10 ** 9, 10 ** 9])
             ops.append(("record", i, max(mn, 0), max(mx, 0), rng.randrange(2)))
-        elif k < 0.70:
+        elif k < 0.62:
             ops.append(("get", i, rng.randrange(2)))
+        elif k < 0.70:
+            a = rng.randrange(2)
+            ops.append((rng.choice(["recordwatch", "recordwatch", "recordfault"]), i, rng.choice([0, 0, n + 33, 10 ** 9]),
+                        rng.choice([10 ** 9, 10 ** 9, n - 1]) if n else 10 ** 9, a))
+            ops.append(("get", i, 1 - a))
         elif k < 0.75:
             ops.append(("getaway", i, rng.randrange(2)))
             ops.append(("get", i, rng.randrange(2)))
@@ -183,6 +196,14 @@ CORPUS = [
     # the store directory is moved away during one read and moved back: absent then, present afterwards
     dict(store=True, vals=[("py", "v" * 70), ("py", [1, 2])], ops=[("record", 0, 0, BIG, 0), ("record", 1, BIG, BIG, 0), ("getaway", 0, 0), ("getaway", 1, 0),
                                                                     ("get", 0, 0), ("get", 0, 1), ("getaway", 0, 1), ("record", 0, 0, BIG, 1), ("get", 0, 1)]),
+    # an offloaded value is recorded AGAIN while the other backend reads it inside the store's write window, and again with a
+    # write fault (ENOSPC) inside that window: the value must stay readable (the unchanged code never reopens an existing object)
+    dict(store=True, vals=[("py", b"u" * 80)], ops=[("record", 0, 0, BIG, 0), ("get", 0, 1), ("recordwatch", 0, 0, BIG, 0), ("get", 0, 1),
+                                                       ("recordwatch", 0, 0, BIG, 1), ("recordfault", 0, 0, BIG, 0), ("get", 0, 1), ("get", 0, 0),
+                                                       ("record", 0, 0, BIG, 1), ("get", 0, 0)]),
+    dict(store=True, vals=[("blob", b"big payload"), ("py", "t" * 90)], ops=[("record", 0, 0, BIG, 1), ("record", 1, 0, BIG, 1), ("recordfault", 1, 0, BIG, 1),
+                                                                               ("get", 1, 0), ("recordwatch", 0, 0, BIG, 0), ("get", 0, 1), ("recordwatch", 1, 0, 5, 0),
+                                                                               ("get", 1, 1)]),
     # never recorded
     dict(store=True, vals=[("py", 5), ("blob", b"")], ops=[("get", 0), ("get", 1), ("dropstore", 0), ("record", 1, 0, BIG), ("get", 1)]),
 ]
@@ -212,6 +233,51 @@ class Real:
                 self.pre[d] = bytes(data)
             return d
         rv.hash_tag_bytes = htb
+        # a window inside the value store's write of ONE object: between "opened for writing" and "closed" the harness can
+        # let the other backend read (interleaving) or make the write fail with ENOSPC (fault).  Armed per op.
+        import errno
+        import redun.file as rf
+        self.rf, self.arm = rf, None
+        self._orig_open = rf.LocalFileSystem._open
+        real = self
+
+        class Window:
+            def __init__(self, f, arm):
+                self._f, self._arm = f, arm
+
+            def write(self, data):
+                half = len(data) // 2
+                self._f.write(data[:half])
+                self._f.flush()
+                arm = self._arm
+                if arm["mode"] == "fault":
+                    arm["fired"] = True
+                    raise OSError(errno.ENOSPC, "No space left on device (injected)")
+                if not arm["fired"]:
+                    arm["fired"] = True
+                    arm["result"] = arm["reader"]()
+                return self._f.write(data[half:])
+
+            def close(self):
+                self._f.close()
+
+            def __enter__(self):
+                return self
+
+            def __exit__(self, *exc):
+                self.close()
+
+            def __getattr__(self, name):
+                return getattr(self._f, name)
+
+        def _open(fs, path, mode, **kw):
+            arm = real.arm
+            stream = real._orig_open(fs, path, mode, **kw)
+            if arm is not None and path == arm["path"] and set(mode) & set("wax+"):
+                arm["opened"] = True
+                return Window(stream, arm)
+            return stream
+        rf.LocalFileSystem._open = _open
         # two backends ("processes") sharing one sqlite file and one value store directory; each has its own ValueStore
         # object, session and engine
         uri = "sqlite:///" + os.path.join(self.root, "redun.db")
@@ -222,6 +288,7 @@ class Real:
 
     def close(self):
         self.rv.hash_tag_bytes = self._orig_htb
+        self.rf.LocalFileSystem._open = self._orig_open
         shutil.rmtree(self.root, ignore_errors=True)
 
     def reset(self, store):
@@ -314,6 +381,10 @@ def model_lines(real, case):
         k = op[0]
         if k == "record":
             per_op.append("(record %s i%d i%d)" % (mval(vals[op[1]]), op[2], op[3]))
+        elif k == "recordwatch":
+            per_op.append("(recordwatch %s i%d i%d)" % (mval(vals[op[1]]), op[2], op[3]))
+        elif k == "recordfault":       # the unchanged code never writes an existing object: the fault cannot strike
+            per_op.append("(record %s i%d i%d)" % (mval(vals[op[1]]), op[2], op[3]))
         elif k == "get":
             per_op.append("(get %s)" % mkey(vals[op[1]]))
         elif k == "getaway":
@@ -343,16 +414,34 @@ def run_case(ctx, real, case, replies, n_pre, per_op, label):
     diverged = False
     for n, op in enumerate(case["ops"]):
         k = op[0]
-        who = {"record": 4, "get": 2, "getaway": 2}.get(k)
-        b = real.backends[op[who] if who is not None and len(op) > who else 0]
+        who = {"record": 4, "recordwatch": 4, "recordfault": 4, "get": 2, "getaway": 2}.get(k)
+        widx = op[who] if who is not None and len(op) > who else 0
+        b = real.backends[widx]
         before = real.dump()
-        if k == "record":
+        if k in ("record", "recordwatch", "recordfault"):
             v = vals[op[1]]
             dg = real.digest(v)
             b.value_store_min_size, b._max_value_size = op[2], op[3]
             ndata = len(real.data(v))
+            intact = dg in recorded and dg not in dropped          # recorded before, bytes never deleted since
+            obj_path = os.path.join(real.vs_dir, dg[:2], dg[2:])
+            arm = None
+            if k != "record" and os.path.exists(obj_path):
+                other = real.backends[1 - widx]
+
+                def reader(other=other, dg=dg):
+                    try:
+                        got, ok = other.get_value(dg)
+                        return real.r_val(got) if ok else "absent"
+                    except Exception as e:  # noqa: BLE001
+                        return "!" + type(e).__name__
+                arm = real.arm = {"path": obj_path, "mode": "watch" if k == "recordwatch" else "fault", "reader": reader,
+                                  "fired": False, "opened": False, "result": None}
             try:
-                h = b.record_value(real.obj(v))
+                try:
+                    h = b.record_value(real.obj(v))
+                finally:
+                    real.arm = None
                 real.kind.setdefault(h, "T" if v[0] == "blob" else "F")
                 out = "(ok %s)" % real.r_key(h)
                 if ndata > op[3]:
@@ -398,7 +487,7 @@ def run_case(ctx, real, case, replies, n_pre, per_op, label):
                                       kind="history")
             except Exception as e:  # noqa: BLE001
                 out = "!" + type(e).__name__
-                if ndata <= op[3]:
+                if ndata <= op[3] and not (arm is not None and arm["mode"] == "fault" and arm["fired"]):
                     ctx.violation("C31-record-raises", "record_value raised %s for a value within max_value_size" % type(e).__name__,
                                   case=jcase, expected="recorded", actual=out, kind="history")
                 else:
@@ -406,6 +495,28 @@ def run_case(ctx, real, case, replies, n_pre, per_op, label):
                     if after.split(" (fc")[0] != before.split(" (fc")[0]:
                         ctx.violation("C31-too-large-wrote-state", "a rejected (too large) value left rows or store files behind",
                                       case=jcase, expected=before, actual=after, kind="history")
+            if k == "recordwatch":
+                if arm is None:
+                    rd = "-"                       # no existing object: a first write, nothing staged
+                else:
+                    # not fired = the recorder never had the object open for writing: there was no window, the state the
+                    # reader would have seen is the current one
+                    rd = arm["result"] if arm["fired"] else arm["reader"]()
+                    if intact and rd != real.r_val(real.obj(v)):
+                        ctx.violation("C31-read-during-rerecord-fails", "a recorded value with intact bytes was read by another "
+                                      "backend while it was being recorded again: the read gave %s" % rd, case=jcase,
+                                      expected=real.r_val(real.obj(v)), actual=rd, kind="history")
+                out = out + " " + rd
+            if k == "recordfault" and arm is not None and arm["fired"] and intact:
+                try:
+                    got, ok = real.backends[1 - widx].get_value(dg)
+                    state = "the value" if ok and real.pickle_dumps(got) == real.payload(v) else ("absent" if not ok else "another value")
+                except Exception as e:  # noqa: BLE001
+                    state = "!" + type(e).__name__
+                if state != "the value":
+                    ctx.violation("C31-failed-rerecord-destroys-recorded-value", "a write fault (ENOSPC) during the re-recording of "
+                                  "an intact offloaded value left it unreadable: get_value gives %s" % state, case=jcase,
+                                  expected=repr(v), actual=state, kind="history")
         elif k in ("get", "getaway"):
             v = vals[op[1]]
             dg = real.digest(v)
